@@ -123,7 +123,7 @@ impl<F: Float> ParamGuard for TweedieRegressorParams<F> {
     type Error = LinearError<F>;
 
     fn check_ref(&self) -> Result<&Self::Checked, Self::Error> {
-        if self.0.alpha.is_sign_negative() {
+        if self.0.alpha < F::zero() {
             Err(LinearError::InvalidPenalty(self.0.alpha))
         } else if self.0.power > F::zero() && self.0.power < F::one() {
             Err(LinearError::InvalidTweediePower(self.0.power))
